@@ -150,6 +150,10 @@ def gen_history(rng, cfg):
         elif r < 0.78:
             ev.append(["line", sid, "REST ²"])  # str.isdigit() but int() raises: the handler dies
             open_.remove(sid)
+        elif r < 0.81:
+            # a command line the server cannot decode (a legacy client's local code page): the session ends there
+            ev.append(["badline", sid, rng.choice(["CWD caf\xe9", "\xff", "USER bo\xfcb", "PASS \xe9\xe8"])])
+            open_.remove(sid)
         elif r < 0.86:
             ev.append(["vanish", sid])
             open_.remove(sid)
@@ -160,13 +164,13 @@ def gen_history(rng, cfg):
             ev.append(["idle"])
             open_ = []
         else:
-            ev.append(["racevanish", sid, rng.choice(["USER " + hot, "USER bob", "PASS secret", "QUIT", "PWD"])])
+            ev.append(["racevanish", sid, rng.choice(["USER " + hot, "USER bob", "PASS secret", "QUIT", "QUIT", "PWD", "EPSV\r\nQUIT"]), rng.choice([0, 0, 1, 2, 3, 4, 5, 6])])
             open_.remove(sid)
     return ev
 
 
 def event_sid(ev):
-    return ev[1] if ev[0] in ("line", "vanish", "close", "racevanish", "raceclose", "data") else None
+    return ev[1] if ev[0] in ("line", "vanish", "close", "racevanish", "raceclose", "data", "badline") else None
 
 
 def sessions_before(events, k):
@@ -190,6 +194,10 @@ def variants(rng, events):
         out.append(("b", events[:k] + [["srvclose"]]))
         if k < n and events[k][0] == "line":
             out.append(("c", events[:k] + [["racevanish", events[k][1], events[k][2]]] + events[k + 1 :]))
+            if events[k][2] == "QUIT":
+                # the reset lands while the 221 is on its way (a few loop turns after the QUIT)
+                for d in (1, 2, 3, 4, 5):
+                    out.append(("c", events[:k] + [["racevanish", events[k][1], events[k][2], d]] + events[k + 1 :]))
             out.append(("d", events[:k] + [["raceclose", events[k][1], events[k][2]]]))
     seen = set()
     res = []
@@ -334,9 +342,19 @@ async def _run(loop, cfg, events, ending):
                     obs.append(snap(ev, False, None, n0))
                     continue
                 raw.send_raw(ev[2].encode("utf-8") + b"\r\n")
+                for _ in range(ev[3] if len(ev) > 3 else 0):
+                    await asyncio.sleep(0)
                 raw.vanish()
                 await loop.settle()
                 raw.eof = True
+                obs.append(snap(ev, True, None, n0))
+            elif kind == "badline":
+                raw = raws[ev[1]] if ev[1] < len(raws) else None
+                if dead(raw):
+                    obs.append(snap(ev, False, None, n0))
+                    continue
+                raw.send_raw(ev[2].encode("latin-1") + b"\r\n")
+                await loop.settle()
                 obs.append(snap(ev, True, None, n0))
             elif kind == "idle":
                 await asyncio.sleep(IDLE + 0.5)
@@ -501,6 +519,8 @@ def oracle(cfg, events, obs):
                 fail(i, "C10:accounting-raised", "dispatcher logged %s(%r) at %r" % (cls, msg, ev))
             elif cls == "ValueError" and "invalid literal for int()" in msg:
                 pass  # REST with a digit int() rejects: C05's finding F1; the session must still give its slots back
+            elif cls == "UnicodeDecodeError" and kind == "badline":
+                pass  # how an undecodable command line ends its session; the slots must still come back
             elif cls not in ALLOWED_EXC:
                 fail(i, "C10:dispatcher-exception:" + cls, "dispatcher logged %s(%r) at %r" % (cls, msg, ev))
         if o["loop_errors"]:
@@ -559,6 +579,10 @@ def model_lines(cfg, obs):
                 sys_i = len(lines) - 1
                 lines.append("sess ev %d dataconnect" % ev[1])
                 sess_i = len(lines) - 1
+        elif kind == "badline":
+            if o["delivered"] and ev[1] < nsess:
+                finish(ev[1])
+                sys_i, sess_i = len(lines) - 2, len(lines) - 1
         elif kind in ("vanish", "close", "racevanish"):
             if ev[1] < nsess:
                 finish(ev[1])
